@@ -34,7 +34,7 @@ RELEVANT = {
     "tdfOpticalSystem.py": ["C01", "C12", "C19", "C20", "C14"],
     "tdfEvents.py": ["C01", "C18", "C19", "C20", "C02", "C14"],
     "tdfUtils.py": ["C08", "C15", "C11"],
-    "tdfBlock.py": ["C11", "C01", "C07"],
+    "tdfBlock.py": ["C04", "C11", "C01", "C07"],
 }
 SKIP_FUNCS = {"__repr__", "__str__"}
 CMP = {ast.Lt: ast.LtE, ast.LtE: ast.Lt, ast.Gt: ast.GtE, ast.GtE: ast.Gt, ast.Eq: ast.NotEq, ast.NotEq: ast.Eq,
@@ -222,11 +222,10 @@ def evaluate(job):
                 res["first"] = next((l.strip() for l in o.split("\n") if l.startswith("  ")), "")[:200]
                 return res
         res["status"] = "survived " + ",".join(RELEVANT.get(fname, []))
-        # what changed, for triage
-        new_lines = m["source"].split("\n")
-        res["mutated_to"] = ast.unparse(ast.parse(m["source"]))[:0]  # (placeholder kept empty: the line is found by diffing below)
-        rc, o = sh("git -C %s diff -U0 --ignore-all-space | grep '^[-+]' | grep -v '^+++\\|^---' | head -8" % wt)
-        res["diff"] = o[:600]
+        # what changed, for triage: the first lines on which the unparsed original and the unparsed mutant differ
+        a = ast.unparse(ast.parse(before)).split("\n")
+        b = m["source"].split("\n")
+        res["diff"] = "; ".join("%s  =>  %s" % (x.strip(), y.strip()) for x, y in zip(a, b) if x != y)[:400] or "(line count differs)"
         return res
     finally:
         sh("git -C /repo worktree remove --force %s" % wt)
